@@ -180,7 +180,7 @@ class ProvXMLSerializer(Serializer):
                         or attr in [PROV_TYPE, PROV_LOCATION, PROV_VALUE]
                     )
                     and _ns_xsi("type") not in subelem.attrib
-                    and not str(value).startswith("prov:")
+                    and not (isinstance(value, str) and value.startswith("prov:"))
                     and not (attr in PROV_ATTRIBUTE_QNAMES and v)
                     and attr not in [PROV_ATTR_TIME, PROV_LABEL]
                 ):
